@@ -298,7 +298,8 @@ Proof.
     split; [|split; [|split; [|split]]].
     + constructor; intros y; vw Hl; yx y x; fin Hd.
     + intros y; vw Hl; yx y x; fin Hd.
-    + constructor; try (intros y; vw Hl; yx y x; fin Hd); [intros z; apply incl_refl|apply ext_same; reflexivity].
+    + constructor; [intros y; vw Hl; yx y x; fin Hd|intros y; vw Hl; yx y x; fin Hd|intros y; vw Hl; yx y x; fin Hd
+                   |intros y; vw Hl; yx y x; fin Hd|intros z; apply incl_refl|apply ext_same; reflexivity].
     + intros _. vw Hl. rewrite Nat.eqb_refl. discriminate.
     + reflexivity.
   - unfold fin_of in XB. rewrite Hd in XB.
@@ -319,8 +320,8 @@ Proof.
         split; [|split; [|split; [|split]]].
         -- constructor; intros y; vw Hl1; rewrite ?F1; destruct (ST y) as [[-> [S|[S|S]]]|[Hn S]]; rewrite ?S; fin Hd.
         -- intros y; vw Hl1; rewrite ?F4, ?F5; destruct (ST y) as [[-> [S|[S|S]]]|[Hn S]]; rewrite ?S; fin Hd.
-        -- constructor; try (intros y; vw Hl1; rewrite ?F1, ?F4, ?F5;
-                              destruct (ST y) as [[-> [S|[S|S]]]|[Hn S]]; rewrite ?S; fin Hd).
+        -- constructor; [intros y; vw Hl1; rewrite ?F1, ?F4, ?F5;
+                              destruct (ST y) as [[-> [S|[S|S]]]|[Hn S]]; rewrite ?S; fin Hd ..| |].
            ++ intros z. unfold getdeps. cbn [deps inprog_add set_inprog]. rewrite F6. apply incl_refl.
            ++ exact S5.
         -- intros Hr. vw Hl1. apply NI; auto.
@@ -331,9 +332,9 @@ Proof.
              rewrite ?Nat.eqb_refl, ?(proj2 (Nat.eqb_neq _ _) Hn), ?S; fin Hd.
         -- intros y; vw Hl1; rewrite ?F4, ?F5; destruct (ST y) as [[-> [S|[S|S]]]|[Hn S]];
              rewrite ?Nat.eqb_refl, ?(proj2 (Nat.eqb_neq _ _) Hn), ?S; fin Hd.
-        -- constructor; try (intros y; vw Hl1; rewrite ?F1, ?F4, ?F5;
+        -- constructor; [intros y; vw Hl1; rewrite ?F1, ?F4, ?F5;
                               destruct (ST y) as [[-> [S|[S|S]]]|[Hn S]];
-                              rewrite ?Nat.eqb_refl, ?(proj2 (Nat.eqb_neq _ _) Hn), ?S; fin Hd).
+                              rewrite ?Nat.eqb_refl, ?(proj2 (Nat.eqb_neq _ _) Hn), ?S; fin Hd ..| |].
            ++ intros z. unfold getdeps. setcbn. rewrite F6. apply incl_refl.
            ++ exact S5.
         -- intros _. vw Hl1. rewrite Nat.eqb_refl. discriminate.
@@ -383,7 +384,7 @@ Ltac rcase Hl Hd x Rs' :=
   split; [constructor; intros y; vw Hl; yx y x; cbn [fc_row]; fin Hd
          |split; [intros y; unfold acc in *; vw Hl; rewrite ?In_srem, ?In_set_union; yx y x; cbn [fc_row];
                   intros Hfc; try (apply Rs' in Hfc); fin Hd
-                 |constructor; try (intros y; vw Hl; yx y x; cbn [fc_row]; fin Hd); [intros z; apply incl_refl|apply ext_same; reflexivity]]].
+                 |constructor; [intros y; vw Hl; yx y x; cbn [fc_row]; fin Hd ..|intros z; apply incl_refl|apply ext_same; reflexivity]]].
 
 Lemma handle_report_x p L0 r rest s cl ca :
   dry c = false -> disp_inv c g p L0 (r :: rest) s cl ca -> X c s -> R2 (acc cl ca) s ->
@@ -641,8 +642,8 @@ Proof.
     { unfold s1, R2, nobody.
       split; [constructor; intros y; vw Hl; yx y x; cbn [fc_row]; fin Hl
              |split; [intros y; vw Hl; yx y x; cbn [fc_row]; intros Hfc; try (apply Rs' in Hfc); fin Hl
-                     |constructor; try (intros y; vw Hl; yx y x; cbn [fc_row]; fin Hl);
-                      [intros z; apply incl_refl|apply ext_same; reflexivity]]]. }
+                     |constructor; [intros y; vw Hl; yx y x; cbn [fc_row]; fin Hl ..
+                                   |intros z; apply incl_refl|apply ext_same; reflexivity]]]. }
     destruct G as (G1 & G2 & G3). repeat (split; [assumption|]). split; [reflexivity|].
     intros y E. inversion E; subst y. unfold s1. vw Hl. rewrite Nat.eqb_refl. discriminate.
   - (* launched *)
